@@ -20,7 +20,7 @@ MIDS = [('',), ('.trashinfo',), ('.trashinfo.trashinfo',), ('.trash',), ('trashi
 def k_backup_path(name: str) -> str:
     """
     pre: len(name) <= (PARTITION or 5)
-    pre: '/' not in name
+    pre: '/' not in name and chr(0) not in name
     post: _ == ''
     """
     rt.begin()
@@ -36,7 +36,7 @@ def k_backup_struct(pre: str, mid: int, post: str) -> str:
     """
     pre: PARTITION is None or mid == PARTITION
     pre: len(pre) <= 1 and len(post) <= 1 and 0 <= mid < 7
-    pre: '/' not in pre and '/' not in post
+    pre: '/' not in pre and '/' not in post and chr(0) not in pre and chr(0) not in post
     post: _ == ''
     """
     rt.begin()
